@@ -44,7 +44,7 @@ def run(rep, tier, seed):
     from harness.world import World
     from harness.c12 import ALLF
     traces = []
-    for shape, size in (("chain", 70), ("chain", 150), ("chain", 300), ("fan", 400)):
+    for shape, size in (("chain", 70), ("chain", 150), ("chain", 300), ("chain", 620), ("fan", 400)):
         kids = [[] for _ in range(size)]
         for i in range(2, size + 1):
             kids[(i - 2) if shape == "chain" else 0].append(i)
